@@ -69,6 +69,8 @@ func renderExpr(parts []Part) string {
 		switch p.C {
 		case "TX":
 			sb.WriteString("%{tx." + string(p.K) + "}")
+		case "RULE":
+			sb.WriteString("%{rule." + string(p.K) + "}")
 		default:
 			sb.WriteString("%{" + p.C + "}")
 		}
